@@ -10,6 +10,7 @@ not HOW it is spelled.  Two functions that differ only by the rewrites below hav
     const T x = e; … x …           ≡  … e …                              (single-assignment temporaries without side effects are substituted)
     local names                    free: loop counters are `$i<depth>`, other mutable locals `$v<n>` in order of declaration
     literals                       by value: 0x10 ≡ 16 ≡ 16U, 'X' ≡ 88, "a" "b" ≡ "ab"
+    counts as truth values         n.count, n.count != 0, n.count > 0 (… .length, …Count, …Length)  ≡  0 < n.count
     { S }                          ≡  S                                   (bare blocks carry no meaning; declarations are block scoped and renamed)
 
 Normal form (`normalize(body_text, where)` → list of nodes):
@@ -305,7 +306,10 @@ def cond(text, where="?"):
         parts = _split_toks(toks, op)
         if len(parts) == 2:
             return untok(_strip_parens(parts[1])) + flip + untok(_strip_parens(parts[0])), True
-    return untok(toks), True
+    t = untok(toks)
+    if re.search(r"(\.count|\.length|Count|Length)$", t) and re.fullmatch(r"[\w$.\->\[\]]+", t):
+        return "0<" + t, True               # an (unsigned) count used as a truth value: `n`, `n != 0`, `n > 0` are one condition
+    return t, True
 
 
 # ------------------------------------------------------------------------------- normalisation
@@ -479,8 +483,8 @@ def _norm_list(raw, env, ctx, in_loop):
             for labels, body in st[2]:
                 nodes = _norm_list(body, env, ctx, False)
                 if not nodes or nodes[-1] != ("break",):
-                    if nodes and nodes[-1][0] == "return":
-                        pass
+                    if nodes and (nodes[-1][0] == "return" or nodes[-1] in (("do", "abort()"), ("do", "exit(1)"))):
+                        pass                    # the group does not fall through: it leaves the function / the program
                     else:
                         raise ExtractFail(ctx.where, "case group %r does not end in break (fall-through)" % (labels,))
                 else:
@@ -585,12 +589,31 @@ def _loop(c, body, before, ctx):
                             start = ms.group(1)
                             del before[j]
                             break
-                    if before[j][0] != "do" or re.search(r"(?<![\w$])%s(?![\w$])" % re.escape(v), before[j][1]):
+                    if _mentions(before[j], v):
                         break
                 if start is not None:
                     name = "$i%d" % _depth(inner)
                     return ("loop", name, start, bound, [_rename(x, v, name) for x in inner])
     return ("while", c, body)
+
+
+def _mentions(node, v):
+    rx = re.compile(r"(?<![\w$])%s(?![\w$])" % re.escape(v))
+
+    def cm(c):
+        if isinstance(c, tuple):
+            return any(cm(x[0] if isinstance(x, tuple) and len(x) == 2 and isinstance(x[1], bool) else x) for x in c[1]) if c[0] in ("or", "and") else cm(c[1])
+        return bool(rx.search(c))
+    k = node[0]
+    if k in ("do", "return"):
+        return bool(rx.search(node[1]))
+    if k == "if":
+        return cm(node[1]) or any(_mentions(x, v) for x in node[2] + node[3])
+    if k == "loop":
+        return bool(rx.search(node[2]) or rx.search(node[3])) or any(_mentions(x, v) for x in node[4])
+    if k == "while":
+        return cm(node[1]) or any(_mentions(x, v) for x in node[2])
+    return False
 
 
 def _flat_do(nodes):
